@@ -49,7 +49,16 @@ class CB(Component, __import__("abc").ABC):
 
 
 class CC(Component):
-    pass
+    """A component keeping state of its own under everyday attribute names (pooled, registered, active, index, owner ...),
+    some on the class and some on the instance: a user's attributes are the user's business."""
+    pooled = False
+    registered = False
+
+    def __init__(self, agent, model):
+        super().__init__(agent, model)
+        for k_, v_ in __import__("props.common", fromlist=["x"]).OWN_ATTRS.items():
+            if k_ not in ("pooled", "registered"):
+                setattr(self, k_, v_)
 
 
 class CD(CA):          # subclass of CA: pools are keyed by exact type
